@@ -3,10 +3,10 @@ from props._common import COMMON_TB
 PROP = dict(
     title="Channels deliver each value once, in order, as a valid independent copy",
     lean_module="AbraProofs.Properties.C09",
-    required_theorems=["C09_chanInv_new", "C09_chan_refines_queue", "C09_chan_refines_queue_runN", "C09_chan_fifo", "C09_chan_count",
-                       "C09_read_blocks_only_reader", "C09_blocked_reader_turn", "C09_chan_copy_scalar",
-                       "C09_chan_copy_valid_partial", "C09_chan_copy_graph_partial", "C09_chan_copy_mutated_counterexample",
-                       "C09_chan_copy_reclaimed_counterexample"],
+    required_theorems=["C09_chanInv_new", "C09_chan_refines_queue", "C09_chan_refines_queue_runN", "C09_chan_fifo",
+                       "C09_chan_count", "C09_read_blocks_only_reader", "C09_blocked_reader_turn", "C09_chan_copy_scalar",
+                       "C09_chan_snapshot_at_write", "C09_chan_copy_valid", "C09_chan_receive_total",
+                       "C09_prerepair_mutated_witness", "C09_prerepair_reclaimed_witness"],
     harness_bin="c09",
     # trace cases compare the whole interleaving; the property's statements are checked directly (spec_fail)
     mismatch_is_violation=False,
@@ -19,8 +19,15 @@ PROP = dict(
          "a variant; an empty array); plus other routes to the channel instructions: element type void through the members "
          "and through the channel_read/channel_write intrinsics (repaired defect D89, hard regression), a void channel between two "
          "tasks, the intrinsics and the type-qualified members `channel.read(c)` on an int channel, `channel` as a first-class "
-         "constructor value. Every program runs in a child process (a host abort is reported with its program). spec_fail: per channel the hook's popped "
-         "(bits,tag) sequence is a prefix of the pushed sequence (order, once); output and final value equal those of a "
+         "constructor value. Snapshot stream (fix 97d7808 of D23): the writer "
+         "mutates the sent object after the write and before the read; a task writes a heap value, mutates it and EXITS before "
+         "the read (junk allocations in between); the same object sent twice with a mutation in between (two independent "
+         "snapshots); a struct containing the channel it is sent on; 20-60 struct messages mutated after writing, writer gone, "
+         "reader reads all; every nested value type written by a task that is gone at the read - with `heapsend` model requests "
+         "(W = write now, R = read, M/T ops). Hard regression runs of the two former D23 replays (the second in a child process). "
+         "Every program runs in a child process (a host abort is reported with its program). spec_fail: per channel the identity tokens of the "
+         "popped messages (the hook reports the written value's (bits,tag) carried by the message) are, position by position, a prefix "
+         "of the tokens pushed (order, once; messages with equal tokens are told apart by the content checks); output and final value equal those of a "
          "sequential oracle program without tasks/channels (producer/consumer) or the renderings computed in Rust (nested "
          "values: as written; receiver's mutations; sender's later mutations invisible). Model cases: one scheduler trace per "
          "program, `heapcopy <value>` for what the reader received and `heapalias` for shared/cyclic payloads; non-trivial = the trace has a blocked read or the "
@@ -32,19 +39,20 @@ PROP = dict(
         "Rust VecDeque under Arc<Mutex<_>> assumed to be a FIFO queue; heap model Abra.Heap (objects stay put until their thread is dropped or stores into them)",
     ],
     assumptions=[
-        "`a received value stays valid even if the writing task has finished or its memory has been collected` is FALSE for heap "
-        "payloads on the unchanged tree (known finding D23); the theorem for heap payloads carries the hypothesis that the written "
-        "object graph is neither mutated nor reclaimed between write and read; collection of the payload by the writer's GC is C06's matter",
+        "a Message (snapshot at write, rebuilt at read) is modelled as the table-based copy deepCopyM reading its sources from the heaps "
+        "at WRITE time and allocating in the heaps at read time, in the same first-visit order; the intermediate node table is not a "
+        "separate model object (validated by the heapsend/heapcopy/heapalias correspondences)",
+        "collection of a message's source objects by the writer's GC is irrelevant after 97d7808 (the queue owns plain data); C06 covers the collector",
     ],
     design_ref="DESIGN.md §6 C09",
-    level_text="(partial for heap payloads) Theorems for every thread step function and every embedder schedule: the values "
-               "read from a channel are a prefix of the values written (queue refinement via the trace of executed "
-               "instructions); a blocked read changes nothing but the trace and the scheduler moves on; scalar payloads are "
-               "received unchanged; heap payloads are received as an equal, independent copy provided the written object graph "
-               "is unchanged at read time; the two ways this hypothesis fails are proved as counterexamples in the model and "
-               "replayed on the implementation (D23).",
-    level_note="PARTIAL: copy validity for heap payloads holds only under the no-mutation/no-reclamation hypothesis (D23, known "
-               "finding). Models validated by correspondence, not derived from vm.rs.",
+    level_text="Theorems for every thread step function and every embedder schedule: the values read from a channel are a prefix of "
+               "the values written (queue refinement via the trace of executed instructions), reads never outnumber writes, a blocked "
+               "read changes nothing but the trace and the scheduler moves on. Copy validity after fix 97d7808, with NO hypothesis on "
+               "what the writer does after the write: a read returns an isomorphic copy of the graph as it was WRITTEN (sharing and "
+               "cycles kept, every object freshly allocated in the reader's heap, nothing existing changed), values that rendered "
+               "render equal, scalars are received unchanged, the read always succeeds with fuel = written objects + 1. The two "
+               "witnesses of the old copy-at-read behaviour (D23) are kept as historical theorems about chanReceiveOld.",
+    level_note="proof (D23 fixed by 97d7808; its two replays are hard regression runs). Models validated by correspondence, not derived from vm.rs.",
     technique="Lean 4 theorems (trace/queue invariant lifted through the scheduler loop, heap-copy lemmas) + trace validation, sequential-oracle and rendering checks against the real runtime",
     timeout=3000,
 )
